@@ -941,8 +941,10 @@ def ruleTimeDuration(
     # To make an interval we should at least have a date
     try:
         start_ts = t.dt
-    except ValueError:
-        # the date does not exist in the calendar (e.g. 29.02.2019)
+        end_ts = start_ts + _duration_to_relativedelta(dur)
+    except (ValueError, OverflowError):
+        # the date does not exist in the calendar (e.g. 29.02.2019), or the
+        # duration leads beyond what a datetime can hold (4000000 days)
         return None
     if dur.unit in (
         DurationUnit.DAYS,
@@ -950,15 +952,11 @@ def ruleTimeDuration(
         DurationUnit.WEEKS,
         DurationUnit.MONTHS,
     ):
-        delta = _duration_to_relativedelta(dur)
-        end_ts = start_ts + delta
         # We the end of the interval is a date without particular times
         end = Time(year=end_ts.year, month=end_ts.month, day=end_ts.day)
         return Interval(t_from=t, t_to=end)
 
     if dur.unit in (DurationUnit.HOURS, DurationUnit.MINUTES):
-        delta = _duration_to_relativedelta(dur)
-        end_ts = start_ts + delta
         end = Time(
             year=end_ts.year,
             month=end_ts.month,
